@@ -1,5 +1,6 @@
 import MgProof.C01.InvR
 import MgProof.C01.Once
+import MgProof.C01.HB
 /-!
 # C01 — property theorems (channel)
 
@@ -123,6 +124,33 @@ theorem unpublished_not_accepted (hr : Reach step (mkInit c) s) (t : Nat)
   rcases this with h | ⟨_, h⟩
   · exact Nat.lt_irrefl _ h
   · rw [hp] at h; cases h
+
+/-- **Clause "everything the producer stored in a message before writing it is visible to the
+reader that receives it (the hand-over is a happens-before edge)"**: whenever the reader is
+about to read the payload of the message `m` it received, the producer's payload store is in
+the reader's knowledge set, i.e. there is a chain of release/acquire (or unlock/lock) edges
+from that store to this read — through the release store / acquire load of `write_cursor`
+(sync and busy readers; with several writers via the write lock hand-over between them), or
+through `read_mutex` (mutex reader). Relaxed accesses and futex operations contribute no edge
+in the model, so a downgraded order in the model would falsify this theorem; the orders of
+the real code are compared with the model's on every run (trace tie + static inventory). -/
+theorem handover_is_happens_before (hv : Valid c) (hr : Reach step (mkInit c) s) (m : Msg)
+    (hp : s.pc s.cfg.W = .rPay m) : m ∈ s.know s.cfg.W := by
+  have h := (reach_all c hv s hr).2.2.rd
+  rw [hp] at h
+  exact h
+
+/-- the same as a counter: no payload read ever happened outside the happens-before cone -/
+theorem no_unordered_payload_read (hv : Valid c) (hr : Reach step (mkInit c) s) : s.hbViol = 0 :=
+  (reach_all c hv s hr).2.2.viol
+
+/-- the slot load of the reader is ordered as well: the message it is about to fetch /
+has fetched is known to it (sync and busy readers; the mutex reader holds `read_mutex`) -/
+theorem slot_load_is_ordered (hv : Valid c) (hr : Reach step (mkInit c) s) (rpos : Nat)
+    (hp : s.pc s.cfg.W = .rRdB rpos) : ∀ m, s.accepted[s.delivered.length]? = some m → m ∈ s.know s.cfg.W := by
+  have h := (reach_all c hv s hr).2.2.rd
+  rw [hp] at h
+  exact h
 
 /-! ### non-vacuity: a concrete run with a delivery -/
 
